@@ -165,6 +165,7 @@ pub fn run(ctx: &mut Ctx) {
         "f32" => run_f32(ctx),
         "unsupported" => run_unsupported(ctx),
         "small" => run_small(ctx),
+        "patterns" => run_patterns(ctx),
         s => panic!("unknown sub {}", s),
     }
 }
@@ -351,6 +352,33 @@ fn run_unsupported(ctx: &mut Ctx) {
 }
 
 /// short random rows through every entry point and back-end: cheap enough for Miri
+/// rows of every length 1..=70 whose alphas come in runs and blocks (wholly transparent / wholly opaque / half-and-half groups
+/// of 2..16 pixels at every phase): what a kernel that tests a whole vector of alphas at once can get wrong
+fn run_patterns(ctx: &mut Ctx) {
+    let total = ctx.n;
+    let seed = ctx.seed;
+    ctx.drive(
+        total,
+        |_, idx| Some((ALPHA_PT[(idx % 6) as usize], (idx / 6) % 2 == 1, idx)),
+        |c| json!({"pixel_type": pt_name(c.0), "op": if c.1 {"divide"} else {"multiply"}, "row": c.2, "alpha": "runs and blocks"}),
+        |&(pt, divide, k), stats, viols| with_alpha_px!(pt, P => {
+            stats.nontrivial(&json!([pt_name(pt), divide, k]));
+            let mut rng = Rng::for_case(seed, "C06pat", k);
+            let w = 1 + ((k / 12) % 70) as u32;
+            let h = 1 + rng.below(3) as u32;
+            let content = match P::kind() {
+                CompKind::F32 => firv::spec::Content { kind: 0, seed: rng.next(), a: 0.0, b: 1.0 },
+                _ => firv::spec::Content { kind: 0, seed: rng.next(), a: 0.0, b: 0.0 },
+            };
+            let ap = firv::spec::AlphaPat { kind: *rng.pick(&[12u8, 12, 12, 11, 11, 9, 10, 2, 6, 1]), seed: rng.next() };
+            let src = firv::content::make_pixels::<P>(w, h, &content, Some(&ap));
+            stats.seen("pattern_row_lengths", w);
+            stats.count("pattern_rows", h as u64);
+            check_all::<P>(&src, w, h, divide, "alpha runs/blocks", stats, viols, &ALL_EXT, &ENTRIES);
+        }),
+    );
+}
+
 fn run_small(ctx: &mut Ctx) {
     let total = ctx.n;
     let seed = ctx.seed;
